@@ -310,9 +310,13 @@ pub fn t_hunk_body<const L: usize>() {
 // ------------------------------------------------------------------------------------------
 pub fn t_dialect(text: &[u8], strip: usize, kind: u8, old_name: &[u8], new_name: &[u8], is_rename: bool, nhunks: usize, nfiles: usize) {
     use std::os::unix::ffi::OsStrExt;
-    let p = match parse_patch(text, strip, false) { Ok(p) => p, Err(e) => { std::mem::forget(e); assert!(false, "an accepted header style was rejected"); return; } };
-    assert!(p.file_patches.len() == nfiles, "number of file patches");
-    let fp = &p.file_patches[0];
+    // parse_filepatch + strip: exactly what parse_patch's loop does per file patch (parse_patch itself converts errors
+    // into failure::Error, whose drop glue is out of the solver's reach)
+    let (rest, (_hdr, mut fp0)) = match parse_filepatch(text, false) { Ok(x) => x, Err(e) => { std::mem::forget(e); assert!(false, "an accepted header style was rejected"); return; } };
+    fp0.strip(strip);
+    if nfiles == 1 { assert!(rest.is_empty(), "text left over after the only file patch"); }
+    else { assert!(!rest.is_empty(), "second file patch swallowed"); }
+    let fp = &fp0;
     let k = match fp.kind() { FilePatchKind::Modify => 0u8, FilePatchKind::Create => 1, FilePatchKind::Delete => 2 };
     assert!(k == kind, "file patch kind");
     assert!(fp.is_rename() == is_rename, "rename flag");
@@ -326,7 +330,7 @@ pub fn t_dialect(text: &[u8], strip: usize, kind: u8, old_name: &[u8], new_name:
         None => { assert!(new_name.is_empty(), "new name must be absent (/dev/null)"); }
     }
     kani::cover!(true, "dialect parsed");
-    std::mem::forget(p);
+    std::mem::forget(fp0);
 }
 
 /// parse_filename: bytes in = bytes out (unquoted: up to the first white-space; quoted without
@@ -363,16 +367,39 @@ pub fn t_filename_value<const L: usize>(quoted: bool) {
 // ------------------------------------------------------------------------------------------
 use crate::patch::unified::writer::{UnifiedPatchHunkHeaderWriter, UnifiedPatchHunkWriter, UnifiedPatchWriter};
 
-/// Fixed-size sink: keeps `Vec<u8>` growth out of the formula.
-pub struct Sink<const N: usize> { pub b: [u8; N], pub n: usize }
-impl<const N: usize> Sink<N> { pub fn new() -> Self { Sink { b: [0; N], n: 0 } } pub fn bytes(&self) -> &[u8] { &self.b[..self.n] } }
-impl<const N: usize> std::io::Write for Sink<N> {
-    fn write(&mut self, d: &[u8]) -> std::io::Result<usize> {
+/// Fixed-size sink: keeps `Vec<u8>` growth out of the formula.  `write_fmt` (what `write!` calls) can be answered
+/// from a list of canned outputs instead of running core::fmt (whose function-pointer dispatch dominates the
+/// formula): the numeric formatting of the hunk header is then *assumed* (std's Display for integers; the
+/// start-line arithmetic itself is decided for all values by the MIR VC vc_start_line_roundtrip).
+pub struct Sink<const N: usize> { pub b: [u8; N], pub n: usize, pub canned: [&'static [u8]; 8], pub k: usize }
+impl<const N: usize> Sink<N> {
+    pub fn new() -> Self { Sink { b: [0; N], n: 0, canned: [&[]; 8], k: 99 } }
+    pub fn with_canned(c: [&'static [u8]; 8]) -> Self { Sink { b: [0; N], n: 0, canned: c, k: 0 } }
+    pub fn bytes(&self) -> &[u8] { &self.b[..self.n] }
+    pub fn put(&mut self, d: &[u8]) {
         let mut i = 0;
         while i < d.len() { assert!(self.n < N, "verif-infra: Sink capacity"); self.b[self.n] = d[i]; self.n += 1; i += 1; }
-        Ok(d.len())
     }
+}
+impl<const N: usize> std::io::Write for Sink<N> {
+    fn write(&mut self, d: &[u8]) -> std::io::Result<usize> { self.put(d); Ok(d.len()) }
+    fn write_all(&mut self, d: &[u8]) -> std::io::Result<()> { self.put(d); Ok(()) }
     fn flush(&mut self) -> std::io::Result<()> { Ok(()) }
+    fn write_fmt(&mut self, args: std::fmt::Arguments<'_>) -> std::io::Result<()> {
+        if self.k < 8 {
+            let c = self.canned[self.k];
+            self.k += 1;
+            self.put(c);
+            Ok(())
+        } else {
+            // real formatting (only used by the concrete header family)
+            struct A<'a, const M: usize>(&'a mut Sink<M>);
+            impl<'a, const M: usize> std::fmt::Write for A<'a, M> { fn write_str(&mut self, s: &str) -> std::fmt::Result { self.0.put(s.as_bytes()); Ok(()) } }
+            // no io::Error is ever constructed here: its recursive drop glue alone exhausts the solver's memory
+            if std::fmt::write(&mut A(self), args).is_err() { panic!("verif-infra: formatting error"); }
+            Ok(())
+        }
+    }
 }
 
 fn alpha(x: u8) -> u8 { match x & 3 { 0 => b'a', 1 => b'b', 2 => b'c', _ => b'\\' } }
@@ -386,8 +413,10 @@ pub fn t_write_header(old_start: isize, new_start: isize, nold: usize, nnew: usi
     i = 0;
     while i < nnew { h.add.content.push(&l[..]); i += 1; }
     let mut out = Sink::<48>::new();
-    h.write_header_to(&mut out).unwrap();
-    std::io::Write::write(&mut out, b"\n").unwrap();
+    let r = h.write_header_to(&mut out);
+    assert!(r.is_ok());
+    std::mem::forget(r);
+    out.put(b"\n");
     let (rest, hh) = match parse_hunk_header(out.bytes()) { Ok(x) => x, Err(e) => { std::mem::forget(e); assert!(false, "written hunk header is rejected"); return; } };
     assert!(rest.is_empty());
     assert!(hh.remove_count == nold && hh.add_count == nnew, "counts changed");
@@ -401,7 +430,7 @@ pub fn t_write_header(old_start: isize, new_start: isize, nold: usize, nnew: usi
 
 /// (ii) body: K lines described by ops (' ', '-', '+'), symbolic bytes from a 4-letter alphabet; a line
 /// without terminator where the flags say so.  write -> parse -> same sequences and start lines; write again -> same bytes.
-pub fn t_write_body<const K: usize>(ops: [u8; K], old_start: isize, new_start: isize, no_nl_old_last: bool, no_nl_new_last: bool) {
+pub fn t_write_body<const K: usize>(ops: [u8; K], old_start: isize, new_start: isize, no_nl_old_last: bool, no_nl_new_last: bool, hdr: &'static [u8]) {
     let raw: [u8; K] = kani::any();
     let mut lines = [[0u8; 2]; K];
     let mut i = 0;
@@ -419,8 +448,10 @@ pub fn t_write_body<const K: usize>(ops: [u8; K], old_start: isize, new_start: i
     let mut pre = 0; while pre < K && ops[pre] == b' ' { pre += 1; }
     let mut suf = 0; while suf < K - pre && ops[K - 1 - suf] == b' ' { suf += 1; }
     h.prefix_context = pre; h.suffix_context = if pre == K { 0 } else { suf };
-    let mut out = Sink::<160>::new();
-    h.write_to(&mut out).unwrap();
+    let mut out = Sink::<160>::with_canned([hdr, &[], &[], &[], &[], &[], &[], &[]]);
+    let r1 = h.write_to(&mut out);
+    assert!(r1.is_ok());
+    std::mem::forget(r1);
     let (rest, g) = match parse_hunk(out.bytes()) { Ok(x) => x, Err(e) => { std::mem::forget(e); assert!(false, "written hunk is rejected by the parser"); return; } };
     assert!(rest.is_empty(), "written hunk not consumed");
     assert!(g.remove.content.len() == h.remove.content.len() && g.add.content.len() == h.add.content.len(), "side lengths changed");
@@ -429,8 +460,10 @@ pub fn t_write_body<const K: usize>(ops: [u8; K], old_start: isize, new_start: i
     i = 0;
     while i < h.add.content.len() { assert!(g.add.content[i] == h.add.content[i], "new-side line changed"); i += 1; }
     assert!(g.remove.target_line == h.remove.target_line && g.add.target_line == h.add.target_line, "start lines changed");
-    let mut out2 = Sink::<160>::new();
-    g.write_to(&mut out2).unwrap();
+    let mut out2 = Sink::<160>::with_canned([hdr, &[], &[], &[], &[], &[], &[], &[]]);
+    let r2 = g.write_to(&mut out2);
+    assert!(r2.is_ok());
+    std::mem::forget(r2);
     assert!(out2.n == out.n, "writing is not a fixed point (length)");
     i = 0;
     while i < out.n { assert!(out2.b[i] == out.b[i], "writing is not a fixed point"); i += 1; }
@@ -463,25 +496,40 @@ pub fn t_write_file(text: &[u8]) {
     std::mem::forget(p); std::mem::forget(q);
 }
 
-/// C19 wiring: parse_patch refuses a file patch whose name could leave the tree / keeps accepting safe ones.
+/// C19: the per-file-patch body of parse_patch's loop (parse_filepatch, strip, unsafe_filename) on concrete texts.
+/// (parse_patch itself wraps errors into failure::Error, whose drop glue is out of the solver's reach; that parse_patch
+/// runs exactly this sequence and returns Err when the check fires is an MIR VC: vc_parse_patch_refuses_unsafe.)
 pub fn t_refused(text: &[u8], strip: usize) {
-    match parse_patch(text, strip, false) {
-        Ok(p) => { std::mem::forget(p); assert!(false, "a file patch with a name that leaves the working tree was accepted"); }
-        Err(e) => { kani::cover!(true, "refused"); std::mem::forget(e); }
+    let mut input = text;
+    let mut refused = false;
+    let mut n = 0;
+    while n < 3 {
+        match parse_filepatch(input, false) {
+            Ok((rest, (_h, mut fp))) => {
+                fp.strip(strip);
+                if fp.unsafe_filename().is_some() { refused = true; }
+                input = rest;
+                std::mem::forget(fp);
+            }
+            Err(e) => { std::mem::forget(e); break; }
+        }
+        n += 1;
     }
+    assert!(refused, "a file patch with a name that leaves the working tree was accepted");
+    kani::cover!(true, "refused");
 }
 pub fn t_accepted_safe(text: &[u8], strip: usize) {
     use std::path::Component;
-    match parse_patch(text, strip, false) {
-        Ok(p) => {
-            assert!(p.file_patches.len() == 1);
-            let fp = &p.file_patches[0];
+    match parse_filepatch(text, false) {
+        Ok((rest, (_h, mut fp))) => {
+            fp.strip(strip);
+            assert!(fp.unsafe_filename().is_none(), "a name made safe by stripping was refused");
             for n in fp.old_filename().iter().chain(fp.new_filename().iter()) {
                 for c in n.components() { assert!(c != Component::ParentDir && c != Component::RootDir); }
             }
-            std::mem::forget(p);
+            std::mem::forget(fp);
         }
-        Err(e) => { std::mem::forget(e); assert!(false, "a name made safe by stripping was refused"); }
+        Err(e) => { std::mem::forget(e); assert!(false, "verif-infra: template rejected"); }
     }
 }
 
